@@ -3,7 +3,7 @@ import re
 from vlib import core
 from vlib.runner import Spec, Suite
 
-HARNESS = ("h_storage", ["h_storage.cpp"], {"extra_flags": ["-fno-sanitize=alignment"]})
+HARNESS = ("h_storage", ["h_storage.cpp", "h_storage_nd.cpp"], {"extra_flags": ["-fno-sanitize=alignment"]})
 
 _sizes_cache = {}
 
@@ -105,7 +105,7 @@ def field(head, key):
     return None
 
 
-POLICIES = ["default", "reusable", "mtsafe", "stack", "placement", "buffer"]
+POLICIES = ["default", "reusable", "mtsafe", "stack", "placement", "buffer", "static", "static"]
 RAW_SIZES = [0, 1, 7, 8, 16, 24, 40, 64, 100, 128, 200, 333, 512, 1000]
 
 
@@ -129,7 +129,13 @@ class SeqSuite(Suite):
             p = rng.choice([512, 2048, 4096])
         elif pol == "buffer":
             p = rng.choice([1, 4, 8])
+        asserts = 1
+        if pol == "static":
+            p = rng.choice([64, 256, 256, 2048])
+            asserts = rng.choice([0, 1])
         hdr = "case 0 seq %s ex=%d fs=%s" % (pol, ex, ",".join(map(str, fs)))
+        if pol == "static":
+            hdr += " a=%d" % asserts
         if p is not None:
             hdr += " p=%d" % p
         lines = [hdr]
@@ -140,7 +146,9 @@ class SeqSuite(Suite):
         state = p if pol == "stack" else 0
         objs = []           # stack: (alloc_size, frame id living in the buffer or None)
         inplace = {}        # frame id -> object index
-        maxlive = {"default": 6, "mtsafe": 5, "stack": 6}.get(pol, 1)
+        maxlive = {"default": 6, "mtsafe": 5, "stack": 6, "static": 4 if not asserts else 1}.get(pol, 1)
+        in_buffer = None    # static: the frame that occupies the object's buffer
+        moves = pol == "reusable" and ex == 0
         palette = rng.sample(RAW_SIZES, rng.randint(2, 5))
         if pol == "stack":
             lines.append("newobj")
@@ -160,6 +168,12 @@ class SeqSuite(Suite):
             if pol == "buffer" and r < 0.08 and not live:
                 lines.append("bufset %d" % rng.choice([0, 1, 3, 10, 50, 200]))
                 continue
+            if moves and r < 0.14:
+                mv = rng.choice(["mvctor", "mvassign", "mvassign", "mvself", "swapobj"])
+                if mv == "swapobj" and live:
+                    mv = "mvctor"
+                lines.append(mv)
+                continue
             want_alloc = len(live) < maxlive and (not live or rng.random() < 0.55)
             if want_alloc:
                 k = 0
@@ -169,6 +183,19 @@ class SeqSuite(Suite):
                 sz = fs[kind] if coro else pick_size()
                 if pol == "placement" and sz + ex > p:
                     continue
+                if pol == "static":
+                    if rng.random() < 0.35:     # aim at the boundary of the buffer
+                        sz = max(0, p - 8 + rng.choice([-9, -1, 0, 0, 1, 8]))
+                        coro = drop = False
+                    fits = sz + 8 <= p
+                    if fits and in_buffer is not None:
+                        continue
+                    if not fits and asserts:
+                        # rejected by the library's assert: no frame
+                        lines.append(("coro 0 %d" % kind) if coro else ("alloc 0 %d" % sz))
+                        continue
+                    if fits and not drop:
+                        in_buffer = nframes
                 if pol == "stack":
                     k = rng.randrange(len(objs)) if rng.random() < 0.5 else len(objs) - 1
                     fits = sz + ex + 1 <= objs[k][0]
@@ -188,6 +215,8 @@ class SeqSuite(Suite):
                 nframes += 1
             elif live:
                 f = live.pop(rng.randrange(len(live)))
+                if f == in_buffer:
+                    in_buffer = None
                 if f in inplace:
                     objs[inplace.pop(f)][1] = None
                 lines.append("%s %d" % (rng.choice(["free", "fin", "kill"]), f))
@@ -209,7 +238,7 @@ class SeqSuite(Suite):
 
     def stats(self, cases, outs):
         pol, ops = {}, {}
-        reuse = fallback = growth = extra = coro = raw = 0
+        reuse = fallback = growth = extra = coro = raw = asserts = moves_live = 0
         for c in cases:
             h = c["lines"][0].split()
             key = h[3] + ("+extra" if "ex=0" not in h else "")
@@ -217,10 +246,19 @@ class SeqSuite(Suite):
             for l in c["lines"][1:-1]:
                 k = l.split()[0]
                 ops[k] = ops.get(k, 0) + 1
+            nlive = 0
             for l in outs.get(str(c["id"]), []):
                 head, evs = split_line(l)
+                if head and head[0] == "assert":
+                    asserts += 1
+                if head and re.match(r"(free|fin|kill)#", head[0]):
+                    nlive -= 1
+                if head and head[0] in ("mvctor", "mvassign") and nlive > 0:
+                    moves_live += 1
                 if not head or not re.match(r"(alloc|coro|cdrop)#", head[0]):
                     continue
+                if not head[0].startswith("cdrop"):
+                    nlive += 1
                 if head[0].startswith("alloc"):
                     raw += 1
                 else:
@@ -233,10 +271,11 @@ class SeqSuite(Suite):
                     reuse += 1
                 elif dels and not head[0].startswith("cdrop"):
                     growth += 1
-                elif h[3] in ("mtsafe", "stack"):
+                elif h[3] in ("mtsafe", "stack", "static"):
                     fallback += 1
         return {"policies": pol, "ops": ops, "raw_frames": raw, "coroutine_frames": coro, "frames_without_heap_call": reuse,
-                "growths": growth, "first_or_fallback_allocations": fallback, "extra_objects": extra}
+                "growths": growth, "first_or_fallback_allocations": fallback, "extra_objects": extra,
+                "static_storage_assert_rejections": asserts, "moves_with_a_live_frame": moves_live}
 
     def oracle(self, case, out):
         """the statement of C19 evaluated on the implementation's trace"""
@@ -247,8 +286,11 @@ class SeqSuite(Suite):
         kv = dict(w.split("=", 1) for w in hdr[4:] if "=" in w)
         ex = int(kv.get("ex", "0"))
         p = int(kv.get("p", "0"))
-        hv = HeapView({"x0": p} if pol == "placement" else {})
+        space = 64 if p <= 64 else 256 if p <= 256 else 2048       # static_storage<space>
+        asserts = kv.get("a", "1") != "0"
+        hv = HeapView({"x0": p} if pol == "placement" else {"x0": space} if pol == "static" else {})
         msgs = hv.msgs
+        maxneed_other = -1      # reusable: the other storage object (moves)
         ops = case["lines"][1:]
         maxneed = -1            # reusable / buffer: largest request served so far
         shared = None           # mtsafe: the frame that occupies the shared block
@@ -281,6 +323,11 @@ class SeqSuite(Suite):
                 at = field(head, "at") or ""
                 if pol in ("reusable", "placement", "buffer") and hv.frames:
                     break
+                if pol == "static" and at.startswith("x") and any(b == "x0" for b, _, _ in hv.frames.values()):
+                    break
+                if pol == "static" and asserts and sz + 8 > space:
+                    msgs.append("size: static_storage<%d> accepted a %d byte frame although its assert (frame + trailer <= space) "
+                                "is compiled in" % (space, sz))
                 if pol == "stack" and at.startswith("x") and any(b == at.split("+")[0] for b, _, _ in hv.frames.values()):
                     break
                 news = hv.events(evs_alloc)
@@ -337,6 +384,20 @@ class SeqSuite(Suite):
                     exs = [x for x in head if x.startswith("ex=")]
                     if not exs or exs[0] != "ex=+0-1@%d:ok" % fsz.get(fid, -1):
                         msgs.append("extra: the extra object was not destroyed exactly once with the frame (%s)" % (exs[:1] or "nothing"))
+            elif kind == "assert":
+                # the library rejected the request (static_storage's assert): allowed exactly when frame + trailer do not fit
+                sz = int(field(head, "sz"))
+                if pol != "static" or sz + 8 <= space:
+                    msgs.append("size: a %d byte frame was rejected by an assertion although it fits (%s)" % (sz, pol))
+                hv.events(evs)
+            elif kind in ("mvctor", "mvassign", "mvself", "swapobj"):
+                # moves of the storage object: a block must not be released under a live frame (hv.events), the warm-up
+                # travels with the block
+                hv.events(evs)
+                if kind == "swapobj":
+                    maxneed, maxneed_other = maxneed_other, maxneed
+                elif kind != "mvself":
+                    maxneed_other = -1
             elif kind == "obj":
                 k = int(m.group(2))
                 hv.ext["x%d" % k] = int(field(head, "size"))
